@@ -78,7 +78,7 @@ Proof.
   destruct f as [h|a|d|t|t]; cbn [to_file_loop]; try apply IH.
   - destruct (hopen h); apply IH.
   - destruct stack as [|[h parent] st]; [|apply IH].
-    destruct (IH cur [] (errs ++ [mkDiag (tstart t) (tend t)])) as (z & Hz). rewrite Hz, <- app_assoc. eauto.
+    destruct (IH cur [] (errs ++ [mkDiag (tstart t) (tend t) msg_close])) as (z & Hz). rewrite Hz, <- app_assoc. eauto.
 Qed.
 
 Lemma to_file_loop_bal : forall fs cur stack errs,
@@ -97,7 +97,7 @@ Proof.
   - change (shape (FDesc d)) with 0%N. cbn [N.eqb]. apply IH.
   - change (shape (FComment t)) with 0%N. cbn [N.eqb]. apply IH.
   - change (shape (FClose t)) with 2%N. cbn [N.eqb Pos.eqb]. destruct stack as [|[h parent] st]; cbn [length].
-    + destruct (to_file_loop_prefix r cur [] (errs ++ [mkDiag (tstart t) (tend t)])) as (z & Hz).
+    + destruct (to_file_loop_prefix r cur [] (errs ++ [mkDiag (tstart t) (tend t) msg_close])) as (z & Hz).
       rewrite Hz, <- app_assoc. cbn. eauto.
     + apply IH.
 Qed.
